@@ -213,8 +213,9 @@ def check(prop, tier, seed, jobs):
         for o in a['refuted']:
             rp = o.get('replay') or {}
             kf = next((e for e in known if finding_matches(e, prop, oid, o.get('meta'))), None)
-            if o['kind'] == 'P' or rp.get('reproduced'):
-                if o['kind'] == 'A' and not rp.get('reproduced'):
+            engine_sensitive = o['kind'] == 'A' or o['clause'] == 'no-unexpected-exception'
+            if not engine_sensitive or rp.get('reproduced'):
+                if engine_sensitive and not rp.get('reproduced'):
                     undecided.append((oid, 'auxiliary obligation refuted, not reproduced natively'))
                     continue
                 if kf is not None:
@@ -222,8 +223,11 @@ def check(prop, tier, seed, jobs):
                     nknown += 1
                 else:
                     violations.append((oid, o))
+            elif kf is not None:
+                known_undecided.append((kf, oid))
+                nknown += 1
             else:
-                undecided.append((oid, 'auxiliary obligation refuted; native replay satisfies every property clause'))
+                undecided.append((oid, 'auxiliary obligation (or an exception under the proxies) refuted; the native replay satisfies every property clause'))
         for o in a.get('undecided_obs', []):
             kf = next((e for e in known if finding_matches(e, prop, oid, o.get('meta'))), None)
             if kf is not None:
